@@ -51,9 +51,15 @@ func (u *Unit) argShape(e ast.Expr, at ast.Node, depth int) string {
 					if as, ok := d.node.(*ast.AssignStmt); ok && len(as.Rhs) == 1 && len(as.Lhs) > 1 {
 						for i, l := range as.Lhs {
 							if id := identOf(l); id != nil && (u.Info.Defs[id] == o || u.Info.Uses[id] == o) {
+								if hs := u.helperResultShape(d.rhs, i, depth); hs != "" {
+									return hs
+								}
 								return u.argShape(d.rhs, d.node, depth+1) + "#" + itoa(i)
 							}
 						}
+					}
+					if hs := u.helperResultShape(d.rhs, 0, depth); hs != "" {
+						return hs
 					}
 					return u.argShape(d.rhs, d.node, depth+1)
 				}
@@ -284,12 +290,20 @@ func (a *Atom) ArgSig() string {
 	}
 	_ = at
 	sort.Strings(parts)
-	out := strings.Join(parts, " ; ")
+	out := applySubsts(strings.Join(parts, " ; "), a.Substs)
 	// the conditions under which a (non-MUST) check runs are part of what it checks: nesting it under a
 	// further condition (a cache hit, a mode flag) changes the shape
 	if a.Leaf != nil && !a.Must {
-		if cc := u.condContext(a.Leaf); cc != "" {
-			out += " ?" + cc
+		cc := u.condContext(a.Leaf)
+		if a.CtxOuter != "" {
+			if cc != "" {
+				cc = a.CtxOuter + "," + cc
+			} else {
+				cc = a.CtxOuter
+			}
+		}
+		if cc != "" {
+			out += " ?" + applySubsts(cc, a.Substs)
 		}
 	}
 	return out
@@ -410,6 +424,69 @@ func loopExitsAfter(loop ast.Node, def ast.Node) bool {
 // condContext renders the chain of if-conditions (outermost first) under which node n executes,
 // up to the nearest enclosing loop or literal.
 func (u *Unit) condContext(n ast.Node) string {
+	parts := u.condContextParts(n)
+	return strings.Join(parts, ",")
+}
+
+// condContextParts walks the ancestors of n: `if`/`else` branches and the clauses of tagless switches
+// (rendered as the equivalent else-if chain) that are mode conditions (not guards).
+func (u *Unit) condContextParts(n ast.Node) []string {
+	path := pathTo(u.Body, n)
+	var parts []string
+	isGuard := func(cond ast.Expr) bool {
+		b := u.BlockOf(cond)
+		return b != nil && len(b.Succs) == 2 && (u.FR[b.Succs[0]] || u.FR[b.Succs[1]])
+	}
+	for i := 0; i+1 < len(path); i++ {
+		switch s := path[i].(type) {
+		case *ast.FuncLit:
+			if s != u.Lit {
+				parts = nil
+			}
+		case *ast.IfStmt:
+			child := path[i+1]
+			if child != ast.Node(s.Body) && (s.Else == nil || child != s.Else) {
+				continue
+			}
+			if isGuard(s.Cond) {
+				continue
+			}
+			br := "if"
+			if child != ast.Node(s.Body) {
+				br = "else"
+			}
+			parts = append(parts, br+"("+u.argShape(s.Cond, s.Cond, 3)+")")
+		case *ast.SwitchStmt:
+			if s.Tag != nil || i+2 >= len(path) {
+				continue
+			}
+			cc, ok := path[i+2].(*ast.CaseClause)
+			if !ok {
+				continue
+			}
+			// clauses before cc are the failed alternatives
+			for _, st := range s.Body.List {
+				c := st.(*ast.CaseClause)
+				if c == cc {
+					break
+				}
+				for _, e := range c.List {
+					if !isGuard(e) {
+						parts = append(parts, "else("+u.argShape(e, e, 3)+")")
+					}
+				}
+			}
+			for _, e := range cc.List {
+				if !isGuard(e) {
+					parts = append(parts, "if("+u.argShape(e, e, 3)+")")
+				}
+			}
+		}
+	}
+	return parts
+}
+
+func (u *Unit) condContextOld(n ast.Node) string {
 	ifs := u.enclosingIfsOpt(n, false)
 	var parts []string
 	for i := len(ifs) - 1; i >= 0; i-- {
@@ -464,4 +541,42 @@ func (u *Unit) forIndexShape(v *types.Var) string {
 		return false
 	})
 	return out
+}
+
+// helperResultShape: a value produced by a private (or newly introduced) helper is rendered by what the
+// helper returns, so that moving a computation into a helper does not change operand shapes.
+func (u *Unit) helperResultShape(e ast.Expr, idx, depth int) string {
+	if u.eng == nil || depth > 2 {
+		return ""
+	}
+	c, ok := ast.Unparen(e).(*ast.CallExpr)
+	if !ok {
+		return ""
+	}
+	f := typeutil.StaticCallee(u.Info, c)
+	if f == nil || !InModule(f) {
+		return ""
+	}
+	f = f.Origin()
+	if f.Exported() && !u.eng.isNewFunc(f) {
+		return ""
+	}
+	hd := u.prog.Funcs[f]
+	if hd == nil || hd == u.Fn {
+		return ""
+	}
+	hu := u.eng.UnitOf(hd)
+	var ret *ast.ReturnStmt
+	n := 0
+	for _, ex := range hu.Exits {
+		if ex.Failure || ex.Ret == nil || hu.FR[ex.Block] {
+			continue
+		}
+		n++
+		ret = ex.Ret
+	}
+	if n != 1 || ret == nil || idx >= len(ret.Results) {
+		return ""
+	}
+	return hu.argShape(ret.Results[idx], ret, depth+2)
 }
